@@ -49,3 +49,50 @@ def inject(m, diff, preds, turnout=None):
     m.weighted_z_test_pred = np.ones((n, 1)) if turnout is None else np.asarray(turnout, dtype=float).reshape(-1, 1)
     m.ran_bootstrap = True
     m.n_contests = n
+
+
+class ContestCapture:
+    """Records, from the outside, the unit frames that reach BootstrapElectionModel.compute_bootstrap_errors and the
+    contest-effect columns (aggregate_names) the model builds from them (C11: contest structure)."""
+
+    def __init__(self):
+        self.calls = []
+
+    def __enter__(self):
+        from harness import run_impl
+
+        run_impl._imp()
+        from elexmodel.models.BootstrapElectionModel import BootstrapElectionModel as M
+
+        self.M = M
+        self.orig = M.compute_bootstrap_errors
+        cap = self
+
+        def wrapped(slf, reporting_units, nonreporting_units, unexpected_units, *a, **k):
+            def keys(df):
+                if "district" not in df.columns:
+                    return None
+                return [(str(s), str(d)) for s, d in zip(df["postal_code"].tolist(), df["district"].tolist())]
+
+            rec = {"district_election": bool(getattr(slf, "district_election", False)),
+                   "e": None, "u": None, "names": None}
+            try:
+                ke, kn, ku = keys(reporting_units), keys(nonreporting_units), keys(unexpected_units)
+                if ke is not None and kn is not None and ku is not None:
+                    rec["e"], rec["u"] = ke + kn, ku
+                rec["states"] = sorted({str(s) for df in (reporting_units, nonreporting_units, unexpected_units) for s in df["postal_code"].tolist()})
+            except Exception as ex:  # noqa: BLE001
+                rec["capture_error"] = repr(ex)
+            r = cap.orig(slf, reporting_units, nonreporting_units, unexpected_units, *a, **k)
+            names = getattr(slf, "aggregate_names", None)
+            if isinstance(names, dict):
+                rec["names"] = [n for n, _ in sorted(names.items(), key=lambda kv: kv[1])]
+            cap.calls.append(rec)
+            return r
+
+        M.compute_bootstrap_errors = wrapped
+        return self
+
+    def __exit__(self, *exc):
+        self.M.compute_bootstrap_errors = self.orig
+        return False
